@@ -36,7 +36,7 @@ OPTIONS = {
 
 AXES = {
     "K": (["vec", "mat", None], ["vec", "mat", None]),
-    "baseline": (["vec", None], ["vec", None]),
+    "baseline": (["vec", None], ["vec", None, "scalar"]),
     "W": (["mat", "vec"], ["mat", "vec", None]),
     "lb": (["nonneg", "any"], ["nonneg", "any"]),
 }
@@ -130,10 +130,15 @@ def check(rep, an, tier):
     fields = estimator_fields(K="vec", baseline="vec")
     kw = dict(B=arr("B", S("N", "F"), U_REL, "TOTAL"), underdetermined_opt=strv("underdetermined_opt", "max"),
               l2_eps=num("l2_eps", {"rho": 1, "w": 1}, sign="POS"), batch_size=lsq_inputs(bs=1)["batch_size"], verbose=const(0))
-    res = an.run(f"{EST}.fit_underdetermined", kws=kw, self_fields=fields, config="estimator")
-    F.forwards(rep, res, "ReceptorEstimator.fit_underdetermined", {"lsq_linear_underdetermined"},
-               {"A": "self.A", "lb": "self.lb", "ub": "self.ub", "W": "self.W", "K": "self.K", "baseline": "self.baseline",
-                "underdetermined_opt": "underdetermined_opt", "l2_eps": "l2_eps", "B": "B"})
+    for label, optv in (("max", strv("underdetermined_opt", "max")),
+                        ("vector", arr("underdetermined_opt", S("SRC"), U_INT)),
+                        ("number", num("underdetermined_opt", U_INT))):
+        kw["underdetermined_opt"] = optv
+        res = an.run(f"{EST}.fit_underdetermined", kws=kw, self_fields=fields, config=f"estimator,opt={label}")
+        F.forwards(rep, res, "ReceptorEstimator.fit_underdetermined", {"lsq_linear_underdetermined"},
+                   {"A": "self.A", "lb": "self.lb", "ub": "self.ub", "W": "self.W", "K": "self.K", "baseline": "self.baseline",
+                    "underdetermined_opt": "underdetermined_opt", "l2_eps": "l2_eps", "B": "B"})
+        R.rule_effect_free(rep, res, "ReceptorEstimator.fit_underdetermined") if label == "vector" else None
     rep.require("R-DISPATCH", 14)
     rep.require("R-FLOW", 30)
     rep.require("R-FORWARD", 8)
